@@ -17,6 +17,7 @@ Fixpoint res_eqb (a b : res) : bool :=
   | RVal x, RVal y => obytes_eqb x y
   | RBool x, RBool y => Bool.eqb x y
   | RUnit, RUnit => true
+  | RErr, RErr => true
   | RPos x, RPos y => opos_eqb x y
   | RList l, RList l' =>
       (fix go (l l' : list res) : bool :=
@@ -34,8 +35,14 @@ Definition c10_agrees (c : c10_case) : bool :=
 Fixpoint bad_idx {X} (ok : X -> bool) (i : nat) (l : list X) : list nat :=
   match l with [] => [] | x :: r => if ok x then bad_idx ok (S i) r else i :: bad_idx ok (S i) r end.
 
-Definition mismatches (cs : list c10_case) := bad_idx c10_agrees 0 cs.
-(* the sorted-map model is the specification itself *)
-Definition spec_violations (cs : list c10_case) := bad_idx c10_agrees 0 cs.
+Definition is_pebble (c : c10_case) : bool := Nat.eqb (cdrv c) 3.
+(* known finding 1: only on Pebble, only explained by "a failing Update keeps its writes" *)
+Definition c10_known (c : c10_case) : bool :=
+  negb (c10_agrees c) && is_pebble c && res_eqb (RList (snd (kv_run_leaky [] (cops c)))) (RList (cobs c)).
 
-Definition explain (c : c10_case) := snd (kv_run [] (cops c)).
+Definition mismatches (cs : list c10_case) := bad_idx (fun c => c10_agrees c || c10_known c) 0 cs.
+(* the sorted-map model is the specification itself *)
+Definition spec_violations (cs : list c10_case) := bad_idx (fun c => c10_agrees c || c10_known c) 0 cs.
+Definition known_classes (cs : list c10_case) : list nat := if existsb c10_known cs then [1] else [].
+
+Definition explain (c : c10_case) := (snd (kv_run [] (cops c)), snd (kv_run_leaky [] (cops c))).
